@@ -317,7 +317,7 @@ fn check_case(l: &mut Local<'_>, cfg: ModeCfg, map: &Beatmap, setts: &[Setting],
 }
 
 fn main() {
-    let ctx = Ctx::from_env("C15");
+    let ctx = Ctx::from_env_caps("C15", 50, 1500);
     ctx.rule("case = (mode configuration, grammar map); per case and setting a BFS over all histories of next / nth(k) / len / size_hint (+ terminal std adaptors step_by, skip, collect, last, count, zip) on a fresh gradual difficulty calculator, and of next / nth / last / len on a gradual performance calculator; state key = (reference position, calls after exhaustion <= 2); settings = no mod, DT, and (on maps of <= 4 objects) a Difficulty that itself carries passed_objects(0|1|2); reference = plain next() iteration of a fresh calculator built from the same Difficulty; non-trivial = calculator yields at least one value");
     ctx.assume("values themselves are C02/C03's business; here only the protocol (which value, None, len) is decided");
 
